@@ -11,8 +11,39 @@ Import ListNotations.
 From RX Require Import Generated.
 From RX.Model Require Import Base CharClass Stream Tokenizer Doc Builder Parse Api.
 From RX.Spec Require Import Tree.
-From RX.Proofs Require Import KeystoneEnc KeystoneBuilder KeystoneParse.
+From RX.Proofs Require Import KeystoneEnc KeystoneBuilder KeystoneParse KeystoneProto KeystoneWf KeystoneParseWf.
 Open Scope N_scope.
+
+(* ---- Proofs/KeystoneParseWf.v ---- *)
+Theorem C02_parse_wf_doc_tree :
+  forall (text : bytes) (opt : options) (d : document),
+  parse text opt = Ok d ->
+  exists t : tree, links_of_nodes (d_nodes d) = encode t /\ wf_doc_tree t.
+Proof. exact parse_wf_doc_tree. Qed.
+Print Assumptions C02_parse_wf_doc_tree.
+
+Theorem C02_parse_no_adjacent_text :
+  forall (text : bytes) (opt : options) (d : document),
+  parse text opt = Ok d ->
+  exists t : tree, links_of_nodes (d_nodes d) = encode t /\ no_adjacent_text t = true.
+Proof. exact parse_no_adjacent_text. Qed.
+Print Assumptions C02_parse_no_adjacent_text.
+
+Theorem C02_parse_single_root_element :
+  forall (text : bytes) (opt : options) (d : document),
+  parse text opt = Ok d ->
+  exists t : tree, links_of_nodes (d_nodes d) = encode t /\
+                   count_kind KdElem (tchildren t) = 1%nat.
+Proof. exact parse_single_root_element. Qed.
+Print Assumptions C02_parse_single_root_element.
+
+Theorem C02_parse_no_text_under_root :
+  forall (text : bytes) (opt : options) (d : document),
+  parse text opt = Ok d ->
+  exists t : tree, links_of_nodes (d_nodes d) = encode t /\
+                   count_kind KdText (tchildren t) = 0%nat.
+Proof. exact parse_no_text_under_root. Qed.
+Print Assumptions C02_parse_no_text_under_root.
 
 (* ---- Proofs/KeystoneParse.v ---- *)
 Theorem C02_parse_links_tree :
